@@ -256,6 +256,7 @@ static int s_accepted;
 GHOST static void got_byte(int who, int v) { s_got[who] = v; }
 GHOST static void accepted_one(void) { s_accepted++; }
 GHOST static int accepted(void) { return s_accepted; }
+GHOST static int got0(void) { return s_got[0]; }
 static void* one_reader(void* p) {
   int id = (int)(intptr_t)p;
   unsigned char b = 0;
@@ -309,8 +310,11 @@ static void multi(void) {
     fiber_yield();
     fmc_yield();
     if (syscall(SYS_write, s_sv[0], "Q", 1) != 1) fmc_fail("io harness: peer write failed");  // makes s_sv[1] readable
-    fiber_yield();
-    drain_raw(s_sv[0]);  // makes s_sv[1] writable
+    // readiness for ONE direction only: the reader must get its byte while the writer (woken
+    // together with it) finds the socket still full and goes back to waiting
+    for (int i = 0; i < 200 && !got0(); i++) { rt_force_balance(); fiber_yield(); }
+    if (!got0()) fmc_fail("io: reader blocked on a descriptor was not resumed when it became readable (a writer waits on the same descriptor)");
+    drain_raw(s_sv[0]);  // now it becomes writable
   } else if (sc == 6) {
     s_listen = socket(AF_UNIX, SOCK_STREAM, 0);
     s_sa.sun_family = AF_UNIX;
